@@ -660,9 +660,18 @@ pub fn finish(ctx: Ctx, meta: EvidenceMeta) -> Outcome {
         samples.push(json!({"sub": r.name, "case": s}));
       }
     }
+    // several reports may carry one name (a sub-check split over jobs): they are summed
+    let prev = per_sub.get(&r.name).cloned().unwrap_or(json!({}));
+    let num = |k: &str| prev.get(k).and_then(|v| v.as_f64()).unwrap_or(0.0);
+    let exhaustive = match (prev.get("exhaustive").cloned(), r.exhaustive) {
+      (None, e) => json!(e),
+      (Some(p), Some(e)) if p == json!(e) => json!(e),
+      (Some(p), None) => p,
+      _ => json!(false),
+    };
     per_sub.insert(
       r.name.clone(),
-      json!({"evaluations": r.evaluations, "distinct_nontrivial": r.nontrivial.len(), "discards": r.discards, "exhaustive": r.exhaustive, "wall_s": (r.wall_s*100.0).round()/100.0}),
+      json!({"evaluations": num("evaluations") as u64 + r.evaluations, "distinct_nontrivial": num("distinct_nontrivial") as u64 + r.nontrivial.len() as u64, "discards": num("discards") as u64 + r.discards, "exhaustive": exhaustive, "jobs": num("jobs") as u64 + 1, "wall_s": ((num("wall_s") + r.wall_s) * 100.0).round() / 100.0}),
     );
     match r.exhaustive {
       Some(true) => any_exhaustive = true,
